@@ -1327,6 +1327,8 @@ class CallMixin:  # pylint:disable=too-many-public-methods
             values = {k_: inst.fields.get(k_) for k_ in fields_}
             values.update(kwargs)
             return self.construct_attrs(cls_, [], values, node, frame)  # a new instance built through __init__ (validators run again)
+        if name in ("builtins.staticmethod", "builtins.classmethod") and len(args) == 1:
+            return args[0]  # (used as a plain call on an already unbound callable stored in a class attribute)
         if name == "contextlib.contextmanager":
             return Obj("contextlib.cm_factory", {"fn": args[0]})
         if name == "contextlib.nullcontext":
